@@ -70,6 +70,31 @@ theorem tpVar2_term (G : K) (sq : K → K) (x y z : K) (dd k1 k2 : V3 K) (pj : G
 
 end tp
 
+/-! ## WHFast Jacobi term -/
+section whfast
+variable {K : Type} [Field K] [CharZero K]
+
+/-- ε-part of the Jacobi kick with `η + ε·dη`: the code's variation plus a mass term the code lacks -/
+theorem whJac_full (G eta deta dt : K) (sq : K → K) (x y z dx dy dz : K)
+    (hs : sq (1 / (x*x + y*y + z*z)) * sq (1 / (x*x + y*y + z*z)) = 1 / (x*x + y*y + z*z))
+    (hne : sq (1 / (x*x + y*y + z*z)) ≠ 0) :
+    epsV (whJacKick (Dual.const G) ⟨eta, deta⟩ (Dual.const dt) Scalar.zero (Dual.sqrtLift sq) ⟨x, dx⟩ ⟨y, dy⟩ ⟨z, dz⟩)
+      = V3.add (whJacKickVar G eta dt Scalar.zero sq x y z dx dy dz)
+          (let c := dt * (sq (1 / (x*x + y*y + z*z)) * (1 / (x*x + y*y + z*z)) * G * deta); ⟨c*x, c*y, c*z⟩) := by
+  have h2 : (2:K) ≠ 0 := by norm_num
+  simp only [whJacKick, whJacKickVar, epsV, V3.add, three, Dual.add_re, Dual.add_eps, Dual.sub_re, Dual.sub_eps,
+    Dual.mul_re, Dual.mul_eps, Dual.div_re, Dual.div_eps, Dual.neg_re, Dual.neg_eps, Dual.one_re, Dual.one_eps,
+    Dual.sqrtLift_re, Dual.sqrtLift_eps, Dual.const_re, Dual.const_eps, Dual.zero_re, Dual.zero_eps,
+    sc_zero, sc_one, sc_hadd, sc_hsub, sc_hmul, sc_hdiv, sc_hneg, sc_ofNat, add_zero, mul_zero]
+  generalize hρ : sq (1 / (x * x + y * y + z * z)) = ρ at *
+  have hs' : x * x + y * y + z * z = 1 / (ρ * ρ) := by
+    rw [hs]; field_simp
+  rw [hs']
+  push_cast
+  congr 1 <;> (field_simp; ring)
+
+end whfast
+
 /-! ## move_to_com -/
 section com
 variable {K : Type} [Field K] [CharZero K]
